@@ -171,6 +171,48 @@ class PbfEncoder {
         int64_t granularity = 100, lat_off = 0, lon_off = 0, date_gran = 1000;
     };
 
+  public:
+    // Hostile mode (C03): a file that is well-formed protobuf but inconsistent in one chosen place. Inactive unless set.
+    struct Hostile {
+        int sid_at = -1;            // the n-th string table lookup yields sid_value instead of the real index
+        uint64_t sid_value = 0;
+        int packed_at = -1;         // the n-th packed array is changed: 0 last element dropped, 1 one appended, 2 emptied, 3 doubled
+        int packed_how = 0;
+        int rawsize_at = -1;        // the n-th blob declares rawsize_delta more (or less) than it holds, or rawsize_abs if >= 0
+        int64_t rawsize_delta = 0;
+        int64_t rawsize_abs = -1;
+        bool set_granularity = false, set_date_granularity = false;
+        int64_t granularity = 0, date_granularity = 0;
+        int sid_calls = 0, packed_calls = 0, blob_calls = 0;
+        bool fired = false;
+        std::string what;
+    };
+    Hostile* hostile = nullptr;
+
+  private:
+    uint64_t sid(StringTable& st, const std::string& str) {
+        uint64_t v = st.get(s, str);
+        if (hostile && hostile->sid_calls++ == hostile->sid_at) {
+            hostile->fired = true;
+            hostile->what += " [string index " + std::to_string(static_cast<int64_t>(hostile->sid_value)) + " instead of " + std::to_string(v) + "]";
+            return hostile->sid_value;
+        }
+        return v;
+    }
+    std::string pk(std::vector<uint64_t> v) {
+        if (hostile && hostile->packed_calls++ == hostile->packed_at) {
+            hostile->fired = true;
+            hostile->what += " [packed array of " + std::to_string(v.size()) + " elements: " + (hostile->packed_how == 0 ? "last dropped" : hostile->packed_how == 1 ? "one appended" : hostile->packed_how == 2 ? "emptied" : "doubled") + "]";
+            switch (hostile->packed_how) {
+                case 0: if (!v.empty()) v.pop_back(); break;
+                case 1: v.push_back(v.empty() ? 1 : v.back()); break;
+                case 2: v.clear(); break;
+                default: { auto c = v; v.insert(v.end(), c.begin(), c.end()); break; }
+            }
+        }
+        return pb::packed_varint(v);
+    }
+
     int64_t enc_coord(int32_t v, int64_t off, int64_t gran) const { return (static_cast<int64_t>(v) * 100 - off) / gran; }
 
     std::string info_msg(const Obj& o, StringTable& st, const BlockParams& bp, uint32_t* user_sid_out = nullptr) {
@@ -194,7 +236,7 @@ class PbfEncoder {
             any = true;
         }
         if (!o.user.empty() || s.chance(1, 4)) {
-            m.add(5, pb::f_varint(5, st.get(s, o.user)));
+            m.add(5, pb::f_varint(5, sid(st, o.user)));
             any = true;
         }
         if (!o.visible || (m_history && s.chance(1, 2))) {
@@ -213,11 +255,11 @@ class PbfEncoder {
         if (o.tags.empty() && !s.chance(1, 8)) return;
         std::vector<uint64_t> k, v;
         for (const auto& t : o.tags) {
-            k.push_back(st.get(s, t.k));
-            v.push_back(st.get(s, t.v));
+            k.push_back(sid(st, t.k));
+            v.push_back(sid(st, t.v));
         }
-        m.add(2, pb::f_bytes(2, pb::packed_varint(k)));
-        m.add(3, pb::f_bytes(3, pb::packed_varint(v)));
+        m.add(2, pb::f_bytes(2, pk(k)));
+        m.add(3, pb::f_bytes(3, pk(v)));
     }
 
     std::string node_msg(const Obj& o, StringTable& st, const BlockParams& bp) {
@@ -259,10 +301,10 @@ class PbfEncoder {
                     plon = x;
                 }
             }
-            m.add(8, pb::f_bytes(8, pb::packed_varint(r)));
+            m.add(8, pb::f_bytes(8, pk(r)));
             if (with_loc) {
-                m.add(9, pb::f_bytes(9, pb::packed_varint(la)));
-                m.add(10, pb::f_bytes(10, pb::packed_varint(lo)));
+                m.add(9, pb::f_bytes(9, pk(la)));
+                m.add(10, pb::f_bytes(10, pk(lo)));
                 ch.note("pbf-locations-on-ways");
             }
         }
@@ -279,14 +321,14 @@ class PbfEncoder {
             std::vector<uint64_t> roles, ids, types;
             int64_t prev = 0;
             for (const auto& mm : o.members) {
-                roles.push_back(st.get(s, mm.role));
+                roles.push_back(sid(st, mm.role));
                 ids.push_back(pb::zz(static_cast<int64_t>(static_cast<uint64_t>(mm.ref) - static_cast<uint64_t>(prev))));
                 prev = mm.ref;
                 types.push_back(static_cast<uint64_t>(mm.type));
             }
-            m.add(8, pb::f_bytes(8, pb::packed_varint(roles)));
-            m.add(9, pb::f_bytes(9, pb::packed_varint(ids)));
-            m.add(10, pb::f_bytes(10, pb::packed_varint(types)));
+            m.add(8, pb::f_bytes(8, pk(roles)));
+            m.add(9, pb::f_bytes(9, pk(ids)));
+            m.add(10, pb::f_bytes(10, pk(types)));
         }
         return m.finish(s, ch, true, true);
     }
@@ -315,7 +357,7 @@ class PbfEncoder {
             plat = y;
             plon = x;
             for (const auto& t : o->tags) {
-                uint32_t k = st.get(s, t.k), v = st.get(s, t.v);
+                uint64_t k = sid(st, t.k), v = sid(st, t.v);
                 kv.push_back(k);
                 kv.push_back(v);
             }
@@ -328,19 +370,19 @@ class PbfEncoder {
             pcs = o->cs;
             uids.push_back(pb::zz(static_cast<int64_t>(o->uid) - puid));
             puid = o->uid;
-            int64_t sid = st.get(s, o->user);
+            int64_t sid = static_cast<int64_t>(this->sid(st, o->user));
             sids.push_back(pb::zz(sid - psid));
             psid = sid;
             vis.push_back(o->visible ? 1 : 0);
         }
         pb::Msg m;
-        m.add(1, pb::f_bytes(1, pb::packed_varint(ids)));
+        m.add(1, pb::f_bytes(1, pk(ids)));
         const bool need_info = any_ver || any_ts || any_cs || any_uid || any_user || any_invisible;
         if (need_info || s.chance(1, 3)) {
             pb::Msg di;
             // an array may be left out only if all of its values are the default
             auto maybe = [&](bool needed, uint32_t field, const std::vector<uint64_t>& arr) {
-                if (needed || s.chance(1, 2)) di.add(field, pb::f_bytes(field, pb::packed_varint(arr)));
+                if (needed || s.chance(1, 2)) di.add(field, pb::f_bytes(field, pk(arr)));
                 else ch.note("pbf-denseinfo-array-absent");
             };
             maybe(any_ver, 1, vers);
@@ -348,14 +390,14 @@ class PbfEncoder {
             maybe(any_cs, 3, css);
             maybe(any_uid, 4, uids);
             maybe(any_user, 5, sids);
-            if (any_invisible || (m_history && s.boolean())) di.add(6, pb::f_bytes(6, pb::packed_varint(vis)));
+            if (any_invisible || (m_history && s.boolean())) di.add(6, pb::f_bytes(6, pk(vis)));
             m.add(5, pb::f_bytes(5, di.finish(s, ch, true, true)));
         } else {
             ch.note("pbf-denseinfo-absent");
         }
-        m.add(8, pb::f_bytes(8, pb::packed_varint(lats)));
-        m.add(9, pb::f_bytes(9, pb::packed_varint(lons)));
-        if (any_tags || s.chance(1, 2)) m.add(10, pb::f_bytes(10, pb::packed_varint(kv)));
+        m.add(8, pb::f_bytes(8, pk(lats)));
+        m.add(9, pb::f_bytes(9, pk(lons)));
+        if (any_tags || s.chance(1, 2)) m.add(10, pb::f_bytes(10, pk(kv)));
         else ch.note("pbf-dense-keys_vals-absent");
         m_used_dense = true;
         return m.finish(s, ch, true, true);
@@ -431,8 +473,16 @@ class PbfEncoder {
             blk.add(1, pb::f_bytes(1, stm));
         }
         for (const auto& g : groups) blk.add(2, pb::f_bytes(2, g));
-        if (bp.granularity != 100 || s.chance(1, 4)) blk.add(17, pb::f_int64(17, bp.granularity));
-        if (bp.date_gran != 1000 || s.chance(1, 4)) blk.add(18, pb::f_int64(18, bp.date_gran));
+        if (hostile && hostile->set_granularity) {
+            blk.add(17, pb::f_int64(17, hostile->granularity));
+            hostile->fired = true;
+            hostile->what += " [granularity " + std::to_string(hostile->granularity) + "]";
+        } else if (bp.granularity != 100 || s.chance(1, 4)) blk.add(17, pb::f_int64(17, bp.granularity));
+        if (hostile && hostile->set_date_granularity) {
+            blk.add(18, pb::f_int64(18, hostile->date_granularity));
+            hostile->fired = true;
+            hostile->what += " [date_granularity " + std::to_string(hostile->date_granularity) + "]";
+        } else if (bp.date_gran != 1000 || s.chance(1, 4)) blk.add(18, pb::f_int64(18, bp.date_gran));
         if (bp.lat_off != 0 || s.chance(1, 4)) blk.add(19, pb::f_int64(19, bp.lat_off));
         if (bp.lon_off != 0 || s.chance(1, 4)) blk.add(20, pb::f_int64(20, bp.lon_off));
         return blk.finish(s, ch, true, true);
@@ -447,12 +497,19 @@ class PbfEncoder {
                                   0
 #endif
         });
-        std::string size_field = pb::f_int64(2, static_cast<int64_t>(raw.size()));
+        int64_t declared = static_cast<int64_t>(raw.size());
+        bool hostile_size = false;
+        if (hostile && hostile->blob_calls++ == hostile->rawsize_at) {
+            declared = hostile->rawsize_abs >= 0 ? hostile->rawsize_abs : declared + hostile->rawsize_delta;
+            hostile->fired = hostile_size = true;
+            hostile->what += " [blob of " + std::to_string(raw.size()) + " bytes declares raw_size " + std::to_string(declared) + "]";
+        }
+        std::string size_field = pb::f_int64(2, declared);
         std::string data_field;
         if (comp == 0) {
             data_field = pb::f_bytes(1, raw);
             ch.note("pbf-blob-raw");
-            if (s.boolean()) size_field.clear();  // raw_size is only needed for compressed blobs
+            if (s.boolean() && !hostile_size) size_field.clear();  // raw_size is only needed for compressed blobs
         } else if (comp == 1) {
             data_field = pb::f_bytes(3, zlib_compress(raw, static_cast<int>(s.draw(10))));
         } else {
